@@ -1,6 +1,7 @@
 //! C36 — subscription filters bound what peers can make us track.
 //!
-//! One real gossipsub node whose behaviour carries a whitelist / max-count / max-count(whitelist) filter,
+//! One real gossipsub node whose behaviour carries a whitelist / max-count / max-count(whitelist) / combined(whitelist, whitelist) / combined(max-count, whitelist) /
+//! max-count(combined) filter,
 //! 1..4 raw peers sending subscription RPCs by hand (1..12 entries over 8 topic names, duplicates,
 //! subscribe+unsubscribe of the same topic in one request, non-whitelisted names). After each request
 //! has been processed (net quiescent) the tracked topic set of the sender is read from `all_peers()`.
@@ -151,7 +152,7 @@ pub fn run(args: &Args) -> i32 {
     let check = Check::new(
         args,
         "exploration",
-        "PRNG sequences of hand-sent subscription RPCs against a real gossipsub node with a whitelist, max-count or max-count(whitelist) filter \
+        "PRNG sequences of hand-sent subscription RPCs against a real gossipsub node with a whitelist, max-count, max-count(whitelist), combined(whitelist,whitelist), combined(max-count,whitelist) or max-count(combined) filter \
          (limits 1..4 topics, 2..6 entries); tracked set read after every request; non-trivial = history with >= 1 rejected and >= 1 applied \
          request; distinct by (filter kind, request sequence)",
     );
@@ -161,7 +162,38 @@ pub fn run(args: &Args) -> i32 {
         let wl_hashes: HashSet<gs::TopicHash> = wl.iter().map(|t| gs::IdentTopic::new(t.clone()).hash()).collect();
         let max_topics = 1 + rng.usize(4);
         let max_req = 2 + rng.usize(5);
-        match i % 3 {
+        let wl2: BTreeSet<String> = NAMES.iter().filter(|_| rng.chance(2, 3)).map(|s| s.to_string()).collect();
+        let wl2_hashes: HashSet<gs::TopicHash> = wl2.iter().map(|t| gs::IdentTopic::new(t.clone()).hash()).collect();
+        let both: BTreeSet<String> = wl.intersection(&wl2).cloned().collect();
+        match i % 6 {
+            3 => drive(
+                &check,
+                rng,
+                i,
+                Spec { kind: "combined(whitelist,whitelist)", whitelist: Some(both), max_topics: None, max_per_request: None },
+                gs::CombinedSubscriptionFilters { filter1: gs::WhitelistSubscriptionFilter(wl_hashes), filter2: gs::WhitelistSubscriptionFilter(wl2_hashes) },
+            ),
+            4 => drive(
+                &check,
+                rng,
+                i,
+                Spec { kind: "combined(max-count,whitelist)", whitelist: Some(wl), max_topics: Some(max_topics), max_per_request: Some(max_req) },
+                gs::CombinedSubscriptionFilters {
+                    filter1: gs::MaxCountSubscriptionFilter { filter: gs::AllowAllSubscriptionFilter {}, max_subscribed_topics: max_topics, max_subscriptions_per_request: max_req },
+                    filter2: gs::WhitelistSubscriptionFilter(wl_hashes),
+                },
+            ),
+            5 => drive(
+                &check,
+                rng,
+                i,
+                Spec { kind: "max-count(combined(whitelist,whitelist))", whitelist: Some(both), max_topics: Some(max_topics), max_per_request: Some(max_req) },
+                gs::MaxCountSubscriptionFilter {
+                    filter: gs::CombinedSubscriptionFilters { filter1: gs::WhitelistSubscriptionFilter(wl_hashes), filter2: gs::WhitelistSubscriptionFilter(wl2_hashes) },
+                    max_subscribed_topics: max_topics,
+                    max_subscriptions_per_request: max_req,
+                },
+            ),
             0 => drive(&check, rng, i, Spec { kind: "whitelist", whitelist: Some(wl), max_topics: None, max_per_request: None }, gs::WhitelistSubscriptionFilter(wl_hashes)),
             1 => drive(
                 &check,
